@@ -219,8 +219,10 @@ def number(ctx, terminator=never):
     if "$" in num or "_" in num or "." in num:
         raise reports.RecoverableError("Local label, not a number")
 
-    # Does the number only include decimal digits?
-    if num.isdigit():
+    # Does the number only include decimal digits? Only ASCII digits count:
+    # str.isdigit() also accepts digits of other scripts, which int() below
+    # would either reject (base 8) or silently accept as numbers
+    if re.fullmatch(r"[0-9]+", num):
         if has_dot:
             # Decimal
             return types.Number(ctx_start, ctx, f"{sign_str}{num}.", int(num, 10) * sign, is_valid_label=False)
